@@ -99,6 +99,7 @@ class Inliner:
         self.methods = methods
         self.cross = cross or set()
         self.generated: Set[str] = set()
+        self.results: Set[str] = set()
 
     def helper(self, call: ast.Call) -> Optional[ast.FunctionDef]:
         if self.methods and isinstance(call.func, ast.Attribute) and \
@@ -156,6 +157,7 @@ class Inliner:
         mp = {n: pre + n for n in _local_names(fn)}
         result = pre + 'result'
         self.generated |= set(mp.values()) | {result}
+        self.results.add(result)
         params = [a.arg for a in fn.args.posonlyargs + fn.args.args]
         is_method = isinstance(call.func, ast.Attribute)
         if is_method:
@@ -247,10 +249,37 @@ class Inliner:
             return res      # the call was a statement: its value is discarded
         return res + [s]
 
+    def nonnull(self, c: ast.Call) -> bool:
+        """the callee's declared result type is a plain class (never None)"""
+        cands: List[Func] = []
+        if isinstance(c.func, ast.Name):
+            r = self.index.resolve_name(self.module, c.func.id)
+            if isinstance(r, Func):
+                cands = [r]
+        elif isinstance(c.func, ast.Attribute):
+            for m in self.index.modules.values():
+                for k in m.classes.values():
+                    if c.func.attr in k.methods:
+                        cands.append(k.methods[c.func.attr])
+        if not cands:
+            return False
+        for f in cands:
+            ann = f.node.returns
+            if ann is None:
+                return False
+            t = ast.unparse(ann)
+            if any(w in t for w in ('Optional', 'None', 'Any', 'Union', 'object')):
+                return False
+        return True
+
     def run(self) -> ast.FunctionDef:
+        _NONNULL[0] = self.nonnull
         fn = copy.deepcopy(self.func.node)
         fn.body = self.block(fn.body, self.depth)
         if self.inlined:
+            if split_optional_results(fn, self.results):
+                self.generated |= {n.id for n in ast.walk(fn) if isinstance(n, ast.Name)
+                                   and '_p' in n.id and n.id.rsplit('_p', 1)[0] in self.generated}
             propagate_copies(fn, self.generated)
         ast.fix_missing_locations(fn)
         return fn
@@ -503,3 +532,223 @@ def inline_pure_exprs(index: RepoIndex, module: Module, cls, expr: ast.AST,
             out = _SubstNames(bound).visit(copy.deepcopy(e))
             return inline_pure_exprs(index, target.module, target.cls, out, depth - 1)
     return ast.fix_missing_locations(T().visit(copy.deepcopy(expr)))
+
+
+# ---------------------------------------------------------------------------
+# Optional results: path splitting (tail duplication) + folding of None tests
+def _stores(node_or_list) -> Set[str]:
+    nodes = node_or_list if isinstance(node_or_list, list) else [node_or_list]
+    return {n.id for s in nodes for n in ast.walk(s)
+            if isinstance(n, ast.Name) and isinstance(n.ctx, (ast.Store, ast.Del))}
+
+
+def _is_none(v: ast.AST) -> bool:
+    return isinstance(v, ast.Constant) and v.value is None
+
+
+_NONNULL = [None]    # callback: expression -> certainly not None (set by the inliner)
+
+
+def _known(v: ast.AST, env: Dict[str, str]) -> Optional[str]:
+    """'none' / 'some' (certainly not None) / None (unknown)"""
+    if _is_none(v):
+        return 'none'
+    if isinstance(v, ast.Call) and _NONNULL[0] is not None and _NONNULL[0](v):
+        return 'some'
+    if isinstance(v, ast.Name):
+        return env.get(v.id)
+    if isinstance(v, (ast.Tuple, ast.List, ast.Dict, ast.Set, ast.JoinedStr, ast.ListComp,
+                      ast.DictComp, ast.SetComp, ast.Lambda)) or \
+            (isinstance(v, ast.Constant) and v.value is not None):
+        return 'some'
+    return None
+
+
+def _test_truth(t: ast.AST, env: Dict[str, str]) -> Optional[bool]:
+    if isinstance(t, ast.UnaryOp) and isinstance(t.op, ast.Not):
+        x = _test_truth(t.operand, env)
+        return None if x is None else not x
+    if isinstance(t, ast.BoolOp):
+        vals = [_test_truth(v, env) for v in t.values]
+        if isinstance(t.op, ast.And):
+            if any(v is False for v in vals):
+                return False
+            return True if all(v is True for v in vals) else None
+        if any(v is True for v in vals):
+            return True
+        return False if all(v is False for v in vals) else None
+    if isinstance(t, ast.Compare) and len(t.ops) == 1 and \
+            isinstance(t.ops[0], (ast.Is, ast.IsNot, ast.Eq, ast.NotEq)):
+        l, r = t.left, t.comparators[0]
+        for a, b in ((l, r), (r, l)):
+            if _is_none(b):
+                k = _known(a, env)
+                if k is not None:
+                    return (k == 'none') == isinstance(t.ops[0], (ast.Is, ast.Eq))
+    if isinstance(t, ast.Name) and env.get(t.id) == 'none':
+        return False
+    return None
+
+
+def _fold(stmts: List[ast.stmt], env: Dict[str, str]) -> List[ast.stmt]:
+    out: List[ast.stmt] = []
+    for s in stmts:
+        if isinstance(s, ast.Assign) and len(s.targets) == 1 and \
+                isinstance(s.targets[0], ast.Name):
+            k = _known(s.value, env)
+            if k is None:
+                env.pop(s.targets[0].id, None)
+            else:
+                env[s.targets[0].id] = k
+            out.append(s)
+            continue
+        if isinstance(s, ast.If):
+            t = _test_truth(s.test, env)
+            if t is not None:
+                sub = _fold(s.body if t else s.orelse, env)
+                out.extend(sub)
+                if sub and not _falls_through(sub):
+                    return out
+                continue
+            s.body = _fold(s.body, dict(env)) or [ast.copy_location(ast.Pass(), s)]
+            s.orelse = _fold(s.orelse, dict(env))
+        for n in _stores(s):
+            env.pop(n, None)
+        out.append(s)
+        if isinstance(s, (ast.Return, ast.Raise, ast.Continue, ast.Break)):
+            return out
+    return out
+
+
+def split_optional_results(fn: ast.FunctionDef, results: Set[str]) -> bool:
+    """For a helper result R that is None on some paths and a value on others, the rest of
+    the block is duplicated into the paths (tail duplication), R and the locals private to
+    the duplicated part are renamed apart per path, and tests of R against None are folded.
+    Each path then has one reaching definition of R, which the rules can expand.  Purely a
+    restructuring: the set of executions is unchanged."""
+    changed = False
+    counter = [0]
+
+    def blocks(node):
+        for parent in ast.walk(node):
+            for field in ('body', 'orelse', 'finalbody'):
+                blk = getattr(parent, field, None)
+                if isinstance(blk, list) and blk and isinstance(blk[0], ast.stmt):
+                    yield blk
+
+    def values_of(R):
+        return [n.value for n in ast.walk(fn) if isinstance(n, ast.Assign)
+                and len(n.targets) == 1 and isinstance(n.targets[0], ast.Name)
+                and n.targets[0].id == R]
+
+    for R in sorted(results):
+        vals = values_of(R)
+        if len(vals) < 2 or not any(_is_none(v) for v in vals) or \
+                all(_is_none(v) for v in vals):
+            continue
+        # IfExp values `v if c else None` are split into statements first
+        for blk in list(blocks(fn)):
+            for i, s in enumerate(blk):
+                if isinstance(s, ast.Assign) and len(s.targets) == 1 and \
+                        isinstance(s.targets[0], ast.Name) and s.targets[0].id == R and \
+                        isinstance(s.value, ast.IfExp):
+                    mk = lambda v: ast.copy_location(
+                        ast.Assign([ast.Name(R, ast.Store())], v), s)
+                    blk[i] = ast.copy_location(
+                        ast.If(s.value.test, [mk(s.value.body)], [mk(s.value.orelse)]), s)
+        target = None
+        for blk in blocks(fn):
+            idx = [i for i, s in enumerate(blk) if R in _stores(s)]
+            if idx and len({id(n) for i in idx for n in ast.walk(blk[i])
+                            if isinstance(n, ast.Name) and n.id == R
+                            and isinstance(n.ctx, ast.Store)}) >= 2:
+                # the outermost block holding all the stores
+                if target is None or len(blk) > 0:
+                    target = (blk, idx)
+                break
+        if target is None:
+            continue
+        blk, idx = target
+        last = idx[-1]
+        cont = blk[last + 1:]
+        if not cont or not isinstance(blk[last], ast.If):
+            continue
+        init_none = any(isinstance(blk[i], ast.Assign) and _is_none(blk[i].value)
+                        for i in idx[:-1])
+        inside = {id(n) for s in cont for n in ast.walk(s)}
+        outside_names = {n.id for n in ast.walk(fn) if isinstance(n, ast.Name)
+                         and id(n) not in inside}
+        private = {n for n in _stores(cont) if n not in outside_names}
+        size = sum(1 for s in cont for _ in ast.walk(s) if isinstance(_, ast.stmt))
+
+        leaves = []
+
+        def collect(ifn):
+            for br in (ifn.body, ifn.orelse):
+                if br and isinstance(br[-1], ast.If) and R in _stores(br[-1]):
+                    collect(br[-1])
+                else:
+                    leaves.append(br)
+        collect(blk[last])
+        if len(leaves) > 6 or size * len(leaves) > 240:
+            continue
+
+        def env_of(stmts, env):
+            for s in stmts:
+                if isinstance(s, ast.Assign) and len(s.targets) == 1 and \
+                        isinstance(s.targets[0], ast.Name):
+                    k = _known(s.value, env)
+                    if k is None:
+                        env.pop(s.targets[0].id, None)
+                    else:
+                        env[s.targets[0].id] = k
+                else:
+                    for n in _stores(s):
+                        env.pop(n, None)
+            return env
+        env0 = env_of(blk[:last], {})
+
+        def specialise(value: Optional[ast.AST], path_env: Dict[str, str]):
+            counter[0] += 1
+            k = counter[0]
+            mp = {n: f'{n}_p{k}' for n in private}
+            mp[R] = f'{R}_p{k}'
+            body = [_Rename(mp).visit(copy.deepcopy(s)) for s in cont]
+            env: Dict[str, str] = dict(path_env)
+            kv = _known(value, path_env) if value is not None else \
+                ('none' if init_none else None)
+            if kv is not None:
+                env[mp[R]] = kv
+            return mp[R], _fold(body, env)
+
+        def push(ifn, env_in=None) -> None:
+            env_in = dict(env0) if env_in is None else env_in
+            for field in ('body', 'orelse'):
+                br = getattr(ifn, field)
+                if br and isinstance(br[-1], ast.If) and R in _stores(br[-1]):
+                    push(br[-1], env_of(br[:-1], dict(env_in)))
+                    continue
+                if br and not _falls_through(br):
+                    continue
+                value = None
+                assign = None
+                for s in br:
+                    if isinstance(s, ast.Assign) and len(s.targets) == 1 and \
+                            isinstance(s.targets[0], ast.Name) and s.targets[0].id == R:
+                        value, assign = s.value, s
+                name, tail = specialise(value, env_of(
+                    [x for x in br if x is not assign], dict(env_in)))
+                if assign is not None:
+                    assign.targets[0].id = name
+                else:
+                    br.append(ast.copy_location(
+                        ast.Assign([ast.Name(name, ast.Store())], ast.Name(R, ast.Load())),
+                        ifn))
+                br.extend(tail)
+                setattr(ifn, field, br)
+        push(blk[last])
+        del blk[last + 1:]
+        changed = True
+    if changed:
+        ast.fix_missing_locations(fn)
+    return changed
